@@ -345,6 +345,7 @@ class Executor(Engine):
         # `if c: x = e` (no else, no possible exception in e): merged as x = ite(c, e, x) instead of forking the path
         if not s.orelse and len(s.body) == 1 and isinstance(s.body[0], ast.Assign) and len(s.body[0].targets) == 1 \
                 and isinstance(s.body[0].targets[0], ast.Name) and s.body[0].targets[0].id in st2.env \
+                and not (isinstance(s.body[0].value, ast.Constant) and s.body[0].value.value is None) \
                 and not z3.is_false(z3.simplify(c)) and not z3.is_true(z3.simplify(c)):
             nm = s.body[0].targets[0].id
             c2 = Ctx(st2.env, spec=False, old=st2.old, engine=self, line=s.lineno)
@@ -764,6 +765,12 @@ class Executor(Engine):
                 lem_pc = list(st2.pc)
                 proved_lemmas = {}
                 env3 = dict(st2.env)
+                for p_ in old:                      # parameters denote their ENTRY values in lemmas (as in ensures);
+                    if p_ in st2.env:               # the value at exit is available as <name>_exit
+                        env3[p_ + '_exit'] = st2.env[p_]
+                    env3[p_] = old[p_]
+                if 'self' in st2.env:
+                    env3['self_final'] = st2.env['self']
                 env3['result'] = res
                 env3['yields'] = res
                 for lem in c.d.get('exit_lemmas', []):
